@@ -2,6 +2,10 @@ import BoltonsVerif.C10.Backends
 import BoltonsVerif.C10.Prio
 import BoltonsVerif.C10.Heap
 import BoltonsVerif.C10.DriverCorrect
+import BoltonsVerif.C10.Plain
+import BoltonsVerif.C10.Round
+import BoltonsVerif.C10.Pure
+import BoltonsVerif.C10.Inf
 /-
 C10 — property theorems (statements + short derivations from Proofs/Queue/Backends.lean)
 and non-vacuity examples.
@@ -198,6 +202,36 @@ theorem sorted_backend_always_sorted (limit : Nat → Nat) (ops : List (Op T)) :
     Asc Entry.lt (PQ.run (sortedBackend limit) ops).1.pq.toList :=
   (run_sim (sorted_lawful limit) ops).1.wf.2
 
+/-- `SortedPriorityQueue` over the BarrelList IS `SortedPriorityQueue` over a plain Python list (what
+    `queueutils` uses when `BList` cannot be imported): for every history and EVERY size-limit function
+    the return values are the same, and after the history the items of the BarrelList - tombstones
+    included, in order - are exactly the plain list; `_entry_map` and the counter agree too -/
+theorem barrel_queue_is_plain_list_queue (limit : Nat → Nat) (ops : List (Op T)) :
+    (PQ.run (sortedBackend limit) ops).2 = (PQ.run plainBackend ops).2 ∧
+    (PQ.run (sortedBackend limit) ops).1.pq.toList = (PQ.run plainBackend ops).1.pq ∧
+    (PQ.run (sortedBackend limit) ops).1.emap = (PQ.run plainBackend ops).1.emap ∧
+    (PQ.run (sortedBackend limit) ops).1.counter = (PQ.run plainBackend ops).1.counter :=
+  ⟨(run_rel (sorted_sim_plain limit) ops).2, (run_rel (sorted_sim_plain limit) ops).1.1.2,
+    (run_rel (sorted_sim_plain limit) ops).1.2.1, (run_rel (sorted_sim_plain limit) ops).1.2.2⟩
+
+/-- the queue does not depend on `BarrelList._size_factor` / `_cur_size_limit`: any two size-limit
+    functions give the same return values for every history AND the same backend content (as a flat
+    list, tombstones included) - only the cut into sub-lists differs -/
+theorem sorted_queue_independent_of_size_limit (limit limit' : Nat → Nat) (ops : List (Op T)) :
+    (PQ.run (sortedBackend limit) ops).2 = (PQ.run (sortedBackend limit') ops).2 ∧
+    (PQ.run (sortedBackend limit) ops).1.pq.toList = (PQ.run (sortedBackend limit') ops).1.pq.toList ∧
+    (PQ.run (sortedBackend limit) ops).1.emap = (PQ.run (sortedBackend limit') ops).1.emap := by
+  have h := barrel_queue_is_plain_list_queue limit ops
+  have h' := barrel_queue_is_plain_list_queue limit' ops
+  exact ⟨h.1.trans h'.1.symm, h.2.1.trans h'.2.1.symm, h.2.2.1.trans h'.2.2.1.symm⟩
+
+/-- the sub-list structure never matters to `insort`: `bisect_right` finds the same insertion point in
+    any two BarrelLists holding the same items -/
+theorem barrel_bisect_independent_of_structure {α : Type} (lt : α → α → Bool) (x : α) (b b' : BL α)
+    (hb : b.ok) (hb' : b'.ok) (h : b.toList = b'.toList) :
+    bisectRight lt x b = bisectRight lt x b' :=
+  bisectRight_congr lt x b b' hb hb' h
+
 /-- the compiled driver used by the correspondence check evaluates exactly `PQ.run` (the function
     all theorems here are about), and therefore prints the specification's outputs -/
 theorem driver_runs_the_model (sf : Nat) (ops : List (Op Nat)) :
@@ -260,6 +294,24 @@ theorem empty_pop_default {β : Type} {B : Backend T β} {wf : β → Prop}
     cases hb : best (live ops) with
     | none => exact absurd ((best_eq_none _).mp hb) h
     | some x => exact ⟨⟨x.1, rfl⟩, ⟨x.1, rfl⟩⟩
+
+/-- `peek` announces exactly what the next `pop` returns (task, default or IndexError) -/
+theorem peek_agrees_with_pop {β : Type} {B : Backend T β} {wf : β → Prop}
+    {content : β → List (Entry T)} (L : Lawful B wf content) (ops : List (Op T)) (d : Option Nat) :
+    nextOut B ops (.peek d) = nextOut B ops (.pop d) := by
+  rw [nextOut_eq_spec L, nextOut_eq_spec L]
+  simp only [Spec.step]
+  cases best (live ops) <;> rfl
+
+/-- `peek` and `len` are pure observations although `peek` culls tombstones from the backend: deleting
+    every `peek` / `len` call from a history changes neither the live tasks nor the return value of any
+    remaining call (`add`, `remove`, `pop`) -/
+theorem peek_and_len_are_unobservable {β : Type} {B : Backend T β} {wf : β → Prop}
+    {content : β → List (Entry T)} (L : Lawful B wf content) (ops : List (Op T)) :
+    (PQ.run B (ops.filter isUpdate)).2 = ((ops.zip (PQ.run B ops).2).filter updOut).map Prod.snd ∧
+    live (ops.filter isUpdate) = live ops := by
+  rw [(run_sim L _).2.2, (run_sim L _).2.2]
+  exact ⟨(spec_strip ops []).2, (spec_strip ops []).1⟩
 
 /-- `len` is the number of live tasks -/
 theorem len_eq_live {β : Type} {B : Backend T β} {wf : β → Prop}
@@ -453,6 +505,85 @@ theorem normalize_sound (limit : Nat → Nat) (g : Dy → Int) (ops : List (ROp 
     rw [normalize_orders_exactly ops a ha b hb, hg a ha b hb]
   exact ⟨by rw [(run_sim (sorted_lawful limit) _).2.2, key], by rw [(run_sim listHeap_lawful _).2.2, key]⟩
 
+/-- CPython's `int -> float` conversion (53 significant bits, round half to even), as the default key
+    applies it to int priorities of ANY size, is monotone: a larger int never becomes a smaller float.
+    Beyond 2^53 distinct ints may collapse into one float (then first-in first-out decides among them),
+    but the order of two int priorities is never inverted -/
+theorem default_key_monotone_on_ints (a b : Int) (h : a ≤ b) :
+    ¬ Dy.lt (PyPrio.int b).eff (PyPrio.int a).eff := by
+  have key : ∀ z : Int, (PyPrio.int z).eff = ⟨roundInt53 z, 0⟩ := by
+    intro z
+    by_cases hz : z = 0
+    · subst hz; decide
+    · simp [PyPrio.eff, PyPrio.or0, PyPrio.truthy, PyPrio.toFloat, hz]
+  rw [key a, key b]
+  have := roundInt53_mono a b h
+  simp only [Dy.lt, Nat.pow_zero, Int.mul_one]
+  omega
+
+/-- the harness sends `float('inf')` / `float('-inf')` priorities to the driver as `+-2^1100`.  That value
+    lies strictly beyond the effective priority of EVERY other legal argument - `None`, bools, ints that
+    `float()` accepts (`|n| < 2^1024`), finite doubles (`|m / 2^e| < 2^1024`) - so it orders a history's
+    priorities exactly as the infinities do, and by `priorities_matter_only_by_order` the return values are
+    those of the real infinities -/
+theorem inf_standin_dominates :
+    (∀ n : Int, n.natAbs < 2 ^ 1024 →
+      Dy.lt (PyPrio.int n).eff ⟨2 ^ 1100, 0⟩ ∧ Dy.lt ⟨-(2 ^ 1100), 0⟩ (PyPrio.int n).eff) ∧
+    (∀ (m : Int) (e : Nat), m.natAbs < 2 ^ 1024 * 2 ^ e →
+      Dy.lt (PyPrio.float m e).eff ⟨2 ^ 1100, 0⟩ ∧ Dy.lt ⟨-(2 ^ 1100), 0⟩ (PyPrio.float m e).eff) ∧
+    (∀ p : PyPrio, p = .none ∨ (∃ b, p = .bool b) →
+      Dy.lt p.eff ⟨2 ^ 1100, 0⟩ ∧ Dy.lt ⟨-(2 ^ 1100), 0⟩ p.eff) := by
+  refine ⟨?_, ?_, ?_⟩
+  · intro n hn
+    have key : (PyPrio.int n).eff = ⟨roundInt53 n, 0⟩ := by
+      by_cases hz : n = 0
+      · subst hz; decide
+      · simp [PyPrio.eff, PyPrio.or0, PyPrio.truthy, PyPrio.toFloat, hz]
+    obtain ⟨h1, h2⟩ := roundInt53_abs_le n hn
+    rw [key]
+    simp only [Dy.lt, Nat.pow_zero, Int.mul_one]
+    constructor <;> omega
+  · intro m e hm
+    have key : (PyPrio.float m e).eff = ⟨m, e⟩ ∨ ((PyPrio.float m e).eff = ⟨0, 0⟩ ∧ m = 0) := by
+      by_cases hz : m = 0
+      · have r0 : roundInt53 0 = 0 := by decide +kernel
+        right; subst hz; simp [PyPrio.eff, PyPrio.or0, PyPrio.truthy, PyPrio.toFloat, r0]
+      · left; simp [PyPrio.eff, PyPrio.or0, PyPrio.truthy, PyPrio.toFloat, hz]
+    have hpos : (0 : Int) < 2 ^ e := Int.pow_pos (by omega)
+    have hlt : (2 : Int) ^ 1024 * 2 ^ e < 2 ^ 1100 * 2 ^ e :=
+      Int.mul_lt_mul_of_pos_right (by decide +kernel) hpos
+    have hm' : ((m.natAbs : Nat) : Int) < 2 ^ 1024 * 2 ^ e := by exact_mod_cast hm
+    rcases key with key | ⟨key, _⟩
+    · rw [key]
+      simp only [Dy.lt, Nat.pow_zero, Int.mul_one]
+      constructor <;> omega
+    · rw [key]; decide +kernel
+  · intro p hp
+    rcases hp with rfl | ⟨b, rfl⟩
+    · decide +kernel
+    · cases b <;> decide +kernel
+
+/-- histories with INFINITE priorities: running the queue on the stand-ins (`+-2^1100`, scaled by any
+    common power of two `2^K` that clears the denominators - the driver uses `2^maxExp`) returns exactly what
+    it returns under ANY interpretation `h` that orders the priorities like the extended reals do
+    (`EPrio.lt`: `-inf` below, `+inf` above every finite value, equal infinities tie) -/
+theorem infinite_priorities_sound {β : Type} {B : Backend T β} {wf : β → Prop}
+    {content : β → List (Entry T)} (L : Lawful B wf content) (ops : List (ROp T EPrio)) (K : Nat)
+    (hl : ∀ a ∈ ROp.prios ops, a.legal) (hK : ∀ a ∈ ROp.prios ops, a.standin.e ≤ K)
+    (h : EPrio → Int)
+    (hh : ∀ a ∈ ROp.prios ops, ∀ b ∈ ROp.prios ops, (h a < h b ↔ EPrio.lt a b)) :
+    (PQ.run B (ops.map (ROp.toOp (fun a => a.standin.scale K)))).2
+      = (PQ.run B (ops.map (ROp.toOp h))).2 := by
+  apply priorities_matter_only_by_order L
+  intro a ha b hb
+  rw [scale_exact K _ _ (hK a ha) (hK b hb), standin_lt_iff a b (hl a ha) (hl b hb), hh a ha b hb]
+
+/-- the conversion itself, on naturals and on ints -/
+theorem int_to_float_rounding_monotone :
+    (∀ n m : Nat, n ≤ m → roundNat53 n ≤ roundNat53 m) ∧
+    (∀ a b : Int, a ≤ b → roundInt53 a ≤ roundInt53 b) :=
+  ⟨roundNat53_mono, roundInt53_mono⟩
+
 /-- the default key `float(priority or 0)`: `None`, `False`, `0`, `0.0`/`-0.0` are one priority, and
     `True`, `1`, `1.0` are one priority; ints up to 2^53 convert exactly -/
 theorem default_key_aliases :
@@ -524,6 +655,19 @@ example : (PQ.run (sortedBackend (fun _ => 2)) exOps).2 =
 
 example : (PQ.run listHeap exOps).2 = (PQ.run (sortedBackend (fun _ => 2)) exOps).2 := by decide
 
+/-- two size limits: different sub-list structure, same items, same answers (and the plain list) -/
+example : (PQ.run (sortedBackend (fun _ => 2)) (exOps.take 6)).1.pq.lists
+      ≠ (PQ.run (sortedBackend (fun _ => 100)) (exOps.take 6)).1.pq.lists ∧
+    (PQ.run (sortedBackend (fun _ => 2)) (exOps.take 6)).1.pq.toList
+      = (PQ.run plainBackend (exOps.take 6)).1.pq ∧
+    (PQ.run plainBackend exOps).2 = (PQ.run (sortedBackend (fun _ => 2)) exOps).2 := by decide
+
+/-- the history without its `len` / `peek` calls: same answers from the other calls -/
+example : exOps.length = 16 ∧ (exOps.filter isUpdate).length = 14 ∧
+    (PQ.run (sortedBackend (fun _ => 2)) (exOps.filter isUpdate)).2 =
+      [.none, .none, .none, .none, .none, .none, .none,
+       .task 3, .task 2, .task 5, .task 1, .indexError, .dflt 7, .keyError] := by decide
+
 /-- the backend really is split into several sub-lists in that history -/
 example : (PQ.run (sortedBackend (fun _ => 2)) (exOps.take 6)).1.pq.lists.length = 5 := by decide
 
@@ -551,6 +695,37 @@ def exRaw : List (ROp Nat Dy) :=
 example : maxExp exRaw = 1 := by decide
 example : (PQ.run (sortedBackend (fun _ => 2)) (normalize exRaw)).2.drop 6 =
     [.task 5, .task 6, .task 3, .task 4, .task 2, .task 1] := by decide +kernel
+/-- a history with both infinities, the largest double and `None`: hypotheses of `infinite_priorities_sound`
+    (with `K = 0`, `h` = ranks `0 < 1 < 2 < 3`) and its conclusion evaluated -/
+def exInf : List (ROp Nat EPrio) :=
+  [.add 1 (.fin ⟨(2 ^ 53 - 1) * 2 ^ 971, 0⟩), .add 2 .posInf, .add 3 .negInf, .add 4 (.fin ⟨0, 0⟩), .add 5 .posInf,
+   .pop none, .pop none, .pop none, .pop none, .pop none]
+
+example : (∀ a ∈ ROp.prios exInf, a.legal) ∧ (∀ a ∈ ROp.prios exInf, a.standin.e ≤ 0) := by
+  simp only [exInf, ROp.prios, List.mem_cons, List.not_mem_nil, or_false, forall_eq_or_imp, forall_eq]
+  decide +kernel
+
+/-- ranks `-inf -> 0`, `0 -> 1`, the largest double `-> 2`, `+inf -> 3` order `exInf`'s priorities like `EPrio.lt` -/
+def exRank : EPrio → Int
+  | .negInf => 0
+  | .fin d => if d.m = 0 then 1 else 2
+  | .posInf => 3
+
+example : ∀ a ∈ ROp.prios exInf, ∀ b ∈ ROp.prios exInf, (exRank a < exRank b ↔ EPrio.lt a b) := by
+  simp only [exInf, ROp.prios, List.mem_cons, List.not_mem_nil, or_false, forall_eq_or_imp, forall_eq]
+  decide +kernel
+
+example : (PQ.run (sortedBackend (fun _ => 2)) (exInf.map (ROp.toOp (fun a => a.standin.scale 0)))).2.drop 5
+    = [.task 2, .task 5, .task 1, .task 4, .task 3] := by decide +kernel
+
+/-- the largest finite double (2^53 - 1) * 2^971 meets the hypothesis of `inf_standin_dominates` -/
+example : (((2 ^ 53 - 1) * 2 ^ 971 : Int)).natAbs < 2 ^ 1024 * 2 ^ 0 ∧
+    Dy.lt (PyPrio.float ((2 ^ 53 - 1) * 2 ^ 971) 0).eff ⟨2 ^ 1100, 0⟩ := by decide +kernel
+
+/-- three consecutive ints beyond 2^53: the first two collapse, the order is kept -/
+example : (PyPrio.int (2 ^ 53 + 1)).eff = (PyPrio.int (2 ^ 53)).eff ∧
+    Dy.lt (PyPrio.int (2 ^ 53 + 1)).eff (PyPrio.int (2 ^ 53 + 2)).eff := by decide +kernel
+
 /-- int → float rounds half to even at 53 bits -/
 example : roundInt53 (2 ^ 53 + 1) = 2 ^ 53 ∧ roundInt53 (2 ^ 53 + 3) = 2 ^ 53 + 4 ∧
     roundInt53 (-(2 ^ 54 + 2)) = -(2 ^ 54) ∧ roundInt53 (2 ^ 54 + 6) = 2 ^ 54 + 8 ∧
